@@ -55,7 +55,7 @@ def solve_one(idx):
     res = {"idx": idx, "name": ob["name"], "kind": ob.get("kind", "check"), "verdict": "unknown", "backend": None, "model": None, "reason": None}
     expect_fail = ob.get("expect") == "fail"     # canaries / cover checks: must NOT be provable
     try:
-        s = _mk_solver(RLIMIT_1)
+        s = _mk_solver(RLIMIT_1 if not expect_fail else min(RLIMIT_1, 4000000))
         s.add(*q)
         r = s.check()
         if r == z3.unsat:
